@@ -203,8 +203,9 @@ class Kernel(object):
         self.tick()
 
     def snapshot(self):
-        return ",".join("%d:%s" % (p.pid, p.state) for p in sorted(self.procs.values(), key=lambda p: p.pid)
-                        if p.state != "g") or "-"
+        return ",".join("%d:%s:%s" % (p.pid, "k" if (p.state == "r" and p.doom is not None and p.doom[1] == 9) else p.state,
+                                      "-" if p.ppid is None else p.ppid)
+                        for p in sorted(self.procs.values(), key=lambda p: p.pid) if p.state != "g") or "-"
 
 
 # ------------------------------------------------------------------------------------------------
@@ -388,7 +389,7 @@ def encj(v):
 
 
 def _lst(l):
-    return "[" + ", ".join(str(x) for x in l) + "]"
+    return "[" + ",".join(str(x) for x in l) + "]"
 
 
 def body_of(resp):
